@@ -50,6 +50,13 @@ Section C03.
   Theorem C03_not_constructor fuel s ex :
     eval fuel s (enot ex) = match eval fuel s ex with Some (s1, r) => Some (s1, rneg r) | None => None end.
   Proof. exact (eval_enot nhash khash fuel s ex). Qed.
+  (* termination of the binary connectives (each is one ITE call): with fuel 3 * (number of variable levels + 1) + 3 no
+     result ONLY IF the node table filled up *)
+  Theorem C03_connectives_fuel_bound mr op f g rf rg :
+    reachable mr -> liveh mr f rf -> liveh mr g rg ->
+    exists bound, forall fuel, (bound <= fuel)%nat -> mstep fuel mr (HBin op f g) = None ->
+      exists s', sext (store mr) s' /\ Inv s' /\ storage_full node (tbl s').
+  Proof. exact (bin_step_fuel_bound nhash khash bmask cmask0 smask0 capacity cap_ok mr op f g rf rg). Qed.
 End C03.
 
 Print Assumptions C03_connectives.
@@ -57,3 +64,4 @@ Print Assumptions C03_not.
 Print Assumptions C03_many.
 Print Assumptions C03_expr.
 Print Assumptions C03_not_constructor.
+Print Assumptions C03_connectives_fuel_bound.
